@@ -171,6 +171,87 @@ theorem cache_second_lookup (U : Universe) (fuel : Nat) (c c' : FCache) (t : Nat
           injection h with h; injection h with h1 h2; subst h1; subst h2
           simp [hl, hb, hp]
 
+/-- a method cache is consistent when every entry is the (marked) result of the uncached search -/
+def MCacheOK (U : Universe) (fuel : Nat) (c : MCache) : Prop :=
+  ∀ t name m, c.lookup (t, name) = some m →
+    name ≠ "_" ∧ ∃ m0 count, methodBFS U t name fuel = some (some m0, count) ∧ count > 0 ∧
+      m0.index ≥ 0 ∧ m = markMethod m0 count
+
+theorem decode_mark (m0 : MRes) (count : Nat) (h0 : m0.index ≥ 0) (hc : count > 0) :
+    (if (markMethod m0 count).index < 0 then (-(markMethod m0 count).index).toNat else 1) = count := by
+  unfold markMethod
+  by_cases h : count > 1
+  · simp only [h, if_true]
+    have : (-(count : Int)) < 0 := by omega
+    rw [if_pos this]
+    omega
+  · simp only [h, if_false]
+    have : ¬ m0.index < 0 := by omega
+    rw [if_neg this]; omega
+
+theorem methodBFS_index_nonneg (U : Universe) (t : Nat) (name : String) (fuel : Nat) (m0 : MRes)
+    (count : Nat) (h : methodBFS U t name fuel = some (some m0, count)) (hc : count > 0) :
+    m0.index ≥ 0 := by
+  obtain ⟨_, h1⟩ := method_lookup_eq_spec U t name fuel _ h
+  obtain ⟨D, _, _, h3⟩ := h1 hc
+  simp only at h3
+  have : m0 ∈ methodsAt U t name D := List.mem_of_mem_head? h3
+  exact (methodsAt_props U t name D m0 this).2
+
+/-- `cache_transparent` (methods): the `Index = -count` encoding of an ambiguous method name in
+    the cache decodes to the same `(method, count)` the uncached search returns. -/
+theorem method_cache_transparent (U : Universe) (fuel : Nat) (c c' : MCache) (t : Nat) (name : String)
+    (r : Option MRes × Nat) (hc : MCacheOK U fuel c)
+    (h : MethodByName U fuel c t name = some (r, c')) :
+    (∃ c0, MethodByName U fuel [] t name = some (r, c0)) ∧ MCacheOK U fuel c' := by
+  unfold MethodByName at h ⊢
+  by_cases h0 : name = "_"
+  · simp only [h0, if_true] at h ⊢
+    injection h with h; injection h with h1 h2; subst h1; subst h2
+    exact ⟨⟨_, rfl⟩, hc⟩
+  · simp only [h0, if_false] at h ⊢
+    simp only [List.lookup_nil]
+    cases hl : c.lookup (t, name) with
+    | some m =>
+      simp only [hl] at h
+      injection h with h; injection h with h1 h2; subst h1; subst h2
+      obtain ⟨_, m0, count, hb, hpos, hidx, hm⟩ := hc t name m hl
+      subst hm
+      rw [decode_mark m0 count hidx hpos, hb]
+      simp only [hpos, if_true]
+      exact ⟨⟨_, rfl⟩, hc⟩
+    | none =>
+      simp only [hl] at h
+      cases hb : methodBFS U t name fuel with
+      | none => simp [hb] at h
+      | some r1 =>
+        obtain ⟨mo, count⟩ := r1
+        cases mo with
+        | none =>
+          simp only [hb] at h
+          injection h with h; injection h with h1 h2; subst h1; subst h2
+          exact ⟨⟨_, rfl⟩, hc⟩
+        | some m0 =>
+          simp only [hb] at h
+          by_cases hp : count > 0
+          · simp only [hp, if_true] at h ⊢
+            injection h with h; injection h with h1 h2; subst h1; subst h2
+            refine ⟨⟨_, rfl⟩, ?_⟩
+            intro t' name' m' hl'
+            simp only [List.lookup_cons] at hl'
+            by_cases he : (t', name') = (t, name)
+            · have : ((t', name') == (t, name)) = true := by simp [he]
+              simp only [this] at hl'
+              injection hl' with hl'; subst hl'
+              injection he with e1 e2; subst e1; subst e2
+              exact ⟨h0, m0, count, hb, hp, methodBFS_index_nonneg U t' name' fuel m0 count hb hp, rfl⟩
+            · have : ((t', name') == (t, name)) = false := by simp [he]
+              simp only [this] at hl'
+              exact hc t' name' m' hl'
+          · simp only [hp, if_false] at h ⊢
+            injection h with h; injection h with h1 h2; subst h1; subst h2
+            exact ⟨⟨_, rfl⟩, hc⟩
+
 /-! ## type switch -/
 
 theorem lookup_map_append (rt : Option Nat → Nat) (k : Nat) (j : Nat) (l : List (Option Nat))
@@ -312,6 +393,157 @@ theorem tsSequential_none (mt : Option Nat → Bool) :
       · exact hc
       · exact ih _ h c' hmem
 
+/-! ## TryLookupFieldOrMethod -/
+
+/-- Go's selector rule for fields and methods together: the outcome of `x.name`. -/
+def SelSpec (U : Universe) (root : Nat) (name : String) : Sel → Prop
+  | .none => ∀ d, fieldsAt U root name d = [] ∧ methodsAt U root name d = []
+  | .field idx => ∃ D, (∀ d', d' < D → fieldsAt U root name d' = [] ∧ methodsAt U root name d' = []) ∧
+      fieldsAt U root name D = [idx] ∧ methodsAt U root name D = []
+  | .method fi i => ∃ D, (∀ d', d' < D → fieldsAt U root name d' = [] ∧ methodsAt U root name d' = []) ∧
+      fieldsAt U root name D = [] ∧ methodsAt U root name D = [⟨i, fi⟩]
+  | .err => ∃ D, (∀ d', d' < D → fieldsAt U root name d' = [] ∧ methodsAt U root name d' = []) ∧
+      (fieldsAt U root name D).length + (methodsAt U root name D).length ≥ 2
+
+/-- normal form of `tryLookupFieldOrMethod` -/
+theorem try_normal (fo : Option (List Nat)) (mo : Option MRes) (fn mn : Nat) :
+    tryLookupFieldOrMethod (fo, fn) (mo, mn) =
+      (let fd := (fo.getD []).length
+       let md := ((mo.map (·.fieldIndex)).getD []).length + 1
+       let fsel := if fn > 1 then Sel.err else Sel.field (fo.getD [])
+       let msel := if mn > 1 then Sel.err
+                   else Sel.method ((mo.map (·.fieldIndex)).getD []) ((mo.map (·.index)).getD 0)
+       if fn = 0 then (if mn = 0 then Sel.none else msel)
+       else if mn = 0 then fsel
+       else if fd < md then fsel
+       else if fd > md then msel
+       else Sel.err) := by
+  unfold tryLookupFieldOrMethod
+  simp only
+  by_cases hf : fn = 0
+  · by_cases hm : mn = 0
+    · simp [hf, hm]
+    · by_cases hm1 : mn > 1
+      · simp [hf, hm, hm1]
+      · have : mn = 1 := by omega
+        simp [hf, this]
+  · by_cases hm : mn = 0
+    · by_cases hf1 : fn > 1
+      · simp [hf, hm, hf1]
+      · have : fn = 1 := by omega
+        simp [hm, this]
+    · by_cases hlt : (fo.getD []).length < ((mo.map (·.fieldIndex)).getD []).length + 1
+      · by_cases hf1 : fn > 1
+        · simp [hf, hm, hlt, hf1]
+        · have : fn = 1 := by omega
+          simp [hm, hlt, this]
+      · by_cases hgt : (fo.getD []).length > ((mo.map (·.fieldIndex)).getD []).length + 1
+        · by_cases hm1 : mn > 1
+          · simp [hf, hm, hlt, hgt, hm1]
+          · have : mn = 1 := by omega
+            simp [hf, hlt, hgt, this]
+        · simp [hf, hm, hlt, hgt]
+
+theorem list_eq_singleton {β : Type} (l : List β) (a : β) (h1 : l.length = 1) (h2 : l.head? = some a) :
+    l = [a] := by
+  match l, h1, h2 with
+  | [x], _, h2 => simp at h2; rw [h2]
+
+/-- `field_or_method_eq_spec`: `Comp.TryLookupFieldOrMethod` applied to the results of the two
+    breadth-first searches yields Go's selector rule: the unique field or method at the
+    shallowest depth that has a field or method of that name, an error if there are two or more
+    there (two fields, two methods, or a field and a method), nothing if the name occurs nowhere. -/
+theorem field_or_method_eq_spec (U : Universe) (root : Nat) (name : String) (fuel : Nat)
+    (fr : Option (List Nat) × Nat) (mr : Option MRes × Nat)
+    (hf : fieldBFS U root name fuel = some fr) (hm : methodBFS U root name fuel = some mr) :
+    SelSpec U root name (tryLookupFieldOrMethod fr mr) := by
+  obtain ⟨fo, fn⟩ := fr
+  obtain ⟨mo, mn⟩ := mr
+  obtain ⟨f0, f1⟩ := lookup_bfs_eq_spec U root name fuel _ hf
+  obtain ⟨m0, m1⟩ := method_lookup_eq_spec U root name fuel _ hm
+  simp only at f0 f1 m0 m1
+  rw [try_normal]
+  simp only
+  -- facts when fields are found
+  have ffound : fn > 0 → ∃ D idx, (∀ d', d' < D → fieldsAt U root name d' = []) ∧
+      (fieldsAt U root name D).length = fn ∧ (fieldsAt U root name D).head? = some idx ∧
+      fo = some idx ∧ idx.length = D + 1 := by
+    intro hp
+    obtain ⟨D, h1, h2, h3⟩ := f1 hp
+    cases hl : fieldsAt U root name D with
+    | nil => rw [hl] at h2; simp at h2; omega
+    | cons a l =>
+      refine ⟨D, a, h1, h2, by rw [hl]; rfl, ?_, ?_⟩
+      · rw [hl] at h3; simpa using h3.symm
+      · exact fieldsAt_len U root name D a (by rw [hl]; simp)
+  have mfound : mn > 0 → ∃ D m, (∀ d', d' < D → methodsAt U root name d' = []) ∧
+      (methodsAt U root name D).length = mn ∧ (methodsAt U root name D).head? = some m ∧
+      mo = some m ∧ m.fieldIndex.length = D := by
+    intro hp
+    obtain ⟨D, h1, h2, h3⟩ := m1 hp
+    cases hl : methodsAt U root name D with
+    | nil => rw [hl] at h2; simp at h2; omega
+    | cons a l =>
+      refine ⟨D, a, h1, h2, by rw [hl]; rfl, ?_, ?_⟩
+      · rw [hl] at h3; simpa using h3.symm
+      · exact (methodsAt_props U root name D a (by rw [hl]; simp)).1
+  -- the two one-sided outcomes
+  have fieldSide : ∀ D idx, fn > 0 → (∀ d', d' < D → fieldsAt U root name d' = []) →
+      (fieldsAt U root name D).length = fn → (fieldsAt U root name D).head? = some idx → fo = some idx →
+      (∀ d', d' ≤ D → methodsAt U root name d' = []) →
+      SelSpec U root name (if fn > 1 then Sel.err else Sel.field (fo.getD [])) := by
+    intro D idx hp h1 h2 h3 h4 hmn
+    by_cases hgt : fn > 1
+    · rw [if_pos hgt]
+      exact ⟨D, fun d' hd' => ⟨h1 d' hd', hmn d' (by omega)⟩, by rw [h2]; omega⟩
+    · rw [if_neg hgt, h4]
+      have : fn = 1 := by omega
+      exact ⟨D, fun d' hd' => ⟨h1 d' hd', hmn d' (by omega)⟩,
+        list_eq_singleton _ _ (by rw [h2, this]) h3, hmn D (Nat.le_refl _)⟩
+  have methodSide : ∀ D m, mn > 0 → (∀ d', d' < D → methodsAt U root name d' = []) →
+      (methodsAt U root name D).length = mn → (methodsAt U root name D).head? = some m → mo = some m →
+      (∀ d', d' ≤ D → fieldsAt U root name d' = []) →
+      SelSpec U root name (if mn > 1 then Sel.err
+        else Sel.method ((mo.map (·.fieldIndex)).getD []) ((mo.map (·.index)).getD 0)) := by
+    intro D m hp h1 h2 h3 h4 hfn
+    by_cases hgt : mn > 1
+    · rw [if_pos hgt]
+      exact ⟨D, fun d' hd' => ⟨hfn d' (by omega), h1 d' hd'⟩, by rw [h2]; omega⟩
+    · rw [if_neg hgt, h4]
+      have : mn = 1 := by omega
+      exact ⟨D, fun d' hd' => ⟨hfn d' (by omega), h1 d' hd'⟩, hfn D (Nat.le_refl _),
+        list_eq_singleton _ _ (by rw [h2, this]) h3⟩
+  by_cases hf0 : fn = 0
+  · rw [if_pos hf0]
+    have fnil := (f0 hf0).2
+    by_cases hm0 : mn = 0
+    · rw [if_pos hm0]
+      exact fun d => ⟨fnil d, (m0 hm0).2 d⟩
+    · rw [if_neg hm0]
+      obtain ⟨D, m, h1, h2, h3, h4, _⟩ := mfound (by omega)
+      exact methodSide D m (by omega) h1 h2 h3 h4 (fun d' _ => fnil d')
+  · rw [if_neg hf0]
+    obtain ⟨Df, idx, g1, g2, g3, g4, g5⟩ := ffound (by omega)
+    by_cases hm0 : mn = 0
+    · rw [if_pos hm0]
+      exact fieldSide Df idx (by omega) g1 g2 g3 g4 (fun d' _ => (m0 hm0).2 d')
+    · rw [if_neg hm0]
+      obtain ⟨Dm, m, h1, h2, h3, h4, h5⟩ := mfound (by omega)
+      have efd : (fo.getD []).length = Df + 1 := by rw [g4]; exact g5
+      have emd : ((mo.map (·.fieldIndex)).getD []).length = Dm := by rw [h4]; exact h5
+      rw [efd, emd]
+      by_cases hlt : Df + 1 < Dm + 1
+      · rw [if_pos hlt]
+        exact fieldSide Df idx (by omega) g1 g2 g3 g4 (fun d' hd' => h1 d' (by omega))
+      · rw [if_neg hlt]
+        by_cases hgt : Df + 1 > Dm + 1
+        · rw [if_pos hgt]
+          exact methodSide Dm m (by omega) h1 h2 h3 h4 (fun d' hd' => g1 d' (by omega))
+        · rw [if_neg hgt]
+          have : Df = Dm := by omega
+          subst this
+          exact ⟨Df, fun d' hd' => ⟨g1 d' hd', h1 d' hd'⟩, by rw [g2, h2]; omega⟩
+
 /-! ## non-vacuity -/
 
 /-- F12: `type A struct{K,X int}; type B struct{K,X int}; type C struct{K int; A; B}` with
@@ -327,6 +559,9 @@ def exCyc : Universe :=
   { types := [⟨.struct, 0, [⟨"M", true⟩]⟩], bodies := [[⟨"K", false, false, 0⟩, ⟨"S", true, true, 0⟩]] }
 
 example : fieldBFS exU 2 "X" 8 = some (some [1, 1], 2) := by decide
+/-- F12 on the repaired model: the method declared on C wins over the two ambiguous promoted fields -/
+example : SelSpec exU 2 "X" (Sel.method [] 0) :=
+  field_or_method_eq_spec exU 2 "X" 8 (some [1, 1], 2) (some ⟨0, []⟩, 1) (by decide) (by decide)
 example : methodBFS exU 2 "X" 8 = some (some ⟨0, []⟩, 1) := by decide
 example : tryLookupFieldOrMethod (some [1, 1], 2) (some ⟨0, []⟩, 1) = Sel.method [] 0 := by decide
 example : fieldBFS exU 3 "X" 8 = some (some [1, 1, 1], 2) := by decide
